@@ -32,8 +32,8 @@ from ..gen import F32, F64, pick
 F16, BF16 = torch.float16, torch.bfloat16
 
 RULE = (
-    "exhaustive: every sequence of length <= D (D = 2 quick, 3 thorough) over 15 operations {to(f32), to(f64), float(), double(), half(), "
-    "bfloat16(), to(f64 tensor), to(f32 tensor), to(instrument declared f64), to(undeclared instrument), simulate, register_buffer (float and integer tensor), "
+    "exhaustive: every sequence of length <= D (D = 2 quick, 3 thorough) over 16 operations {to(f32), to(f64), float(), double(), half(), "
+    "bfloat16(), to(f64 tensor), to(f32 tensor), to(instrument declared f64), to(undeclared instrument), to(instrument=...), simulate, register_buffer (float and integer tensor), "
     "set_default_dtype(f64), to(int32) [must raise]} for each of 8 primaries (constructed with dtype None and f64) and 3 derivative "
     "wrappers, under the float32 global default; plus seeded random sequences of length 4-10. After every operation the real object is compared "
     "with the reference state machine. distinct = distinct (target, operation sequence); trivial = sequences without simulate/register_buffer"
@@ -52,7 +52,7 @@ DECIDING = ["state_machine", "derived.dtype", "reject.int_dtype"]
 REQUIRED_BRANCHES = ["op.simulate_after_cast", "op.cast_after_simulate", "op.to_instrument", "op.register_buffer", "op.set_default", "derivative.alias"]
 
 PRIMS = ["brownian", "heston", "cir", "vasicek", "merton", "kou", "rbergomi", "localvol"]
-OPS = ["to_f32", "to_f64", "float", "double", "half", "bfloat16", "to_tensor64", "to_tensor32", "to_inst64", "to_inst_none", "simulate",
+OPS = ["to_f32", "to_f64", "float", "double", "half", "bfloat16", "to_tensor64", "to_tensor32", "to_inst64", "to_inst_none", "to_inst_kw32", "simulate",
        "register", "register_int", "default64", "to_int"]
 
 
@@ -123,6 +123,9 @@ def apply(op, target, model, prim):
     elif op == "to_inst_none":
         target.to(BrownianStock())
         model.cast(None)
+    elif op == "to_inst_kw32":
+        target.to(instrument=BrownianStock(dtype=F32))  # keyword form of to(instrument)
+        model.cast(F32)
     elif op == "to_cpu":
         target.to(torch.device("cpu"))
     elif op == "simulate":
